@@ -495,8 +495,11 @@ nni_dialer_start_aio(nni_dialer *d, unsigned flags, nni_aio *aiop)
 		return (NNG_ESTATE);
 	}
 
-	if (aiop != NULL) {
-		nni_aio_start(aiop, NULL, NULL);
+	if ((aiop != NULL) && (!nni_aio_start(aiop, NULL, NULL))) {
+		// The operation was refused (stopped, canceled or
+		// timed out) and has been completed already.
+		nni_atomic_flag_reset(&d->d_started);
+		return (0);
 	}
 
 	// Note that flags is currently unused, since the only flag is
